@@ -166,7 +166,7 @@ fn event_member(e: &'static Engine, api: Api, d_ns: u64, at_ns: u64) {
 
 /// timer list component: adders on `threads` harness threads, the timer thread is a harness thread too.
 /// ops per adder: digits = add a timer with that many half-milliseconds (0 => 0 ns), 'd' delete the adder's last timer
-fn timer_list(e: &'static Engine, adders: &'static [&'static str]) {
+pub(crate) fn timer_list(e: &'static Engine, adders: &'static [&'static str]) {
     timer_list_prefilled(e, adders, 0)
 }
 
